@@ -100,6 +100,50 @@ func oracle(c Case) *ev.Verdict {
 			return ev.V("resolve:names-wrong-type", "missing types %v; the diagnostic says %q\n%s", keys(missing), o.Check.Message, tp)
 		}
 	}
+	// (2') the way an API project is built: the type objects are made once, a first root schema gets
+	// all of them (withheld ones included) and is checked, a second root object with the same text
+	// gets the registered subset of the SAME objects: its verdict is the one of the fresh build
+	_, allOfPos := graph.Mentions(p.Root)
+	usesAllOf := false
+	scan := func(pos map[string][]string) {
+		for _, pp := range pos {
+			for _, x := range pp {
+				if x == "allOf" {
+					usesAllOf = true
+				}
+			}
+		}
+	}
+	scan(allOfPos)
+	for _, t := range p.Types {
+		if t.Node != nil {
+			_, pos := graph.Mentions(t.Node)
+			scan(pos)
+		}
+	}
+	if len(p.Withheld) > 0 && usesAllOf {
+		// allOf is compiled in place: the first root schema that uses a type object merges the inherited
+		// properties into it for good (known finding recorded under C10, which owns histories)
+		ev.Excluded("projects", "shared type objects: project uses allOf (compiled in place, C10 known finding)")
+	}
+	if len(p.Withheld) > 0 && !usesAllOf {
+		full := p.Clone()
+		full.Withheld = nil
+		first := sut.Build(full.Text(nil))
+		ev.Guard("projects", c)
+		of := sut.ObserveBuilt(first)
+		second := sut.BuildSharing(tp, first)
+		o3 := sut.ObserveBuilt(second)
+		ev.Unguard()
+		if len(of.Escapes)+len(o3.Escapes) > 0 {
+			e := append(of.Escapes, o3.Escapes...)[0]
+			return ev.V("shared:panic:"+e.Op+":"+e.Frame, "%s panicked when the type objects were shared by two root schemas: %s\n%s", e.Op, e.Value, tp)
+		}
+		if sut.CodeOf(o3.Check) != sut.CodeOf(o.Check) || (o.Check != nil && o3.Check.Message != o.Check.Message) || sortedSet(o3.Used) != sortedSet(o.Used) {
+			return ev.V("shared:verdict-differs", "type objects first registered (all of them, withheld %v included) in another root schema: Check() = %v, UsedUserTypes() = %v; with fresh objects %v, %v\n%s", p.Withheld, o3.Check, o3.Used, o.Check, o.Used, tp)
+		}
+		ev.Class("projects", "type objects shared with a complete root schema")
+	}
 	// (3) additional valid, unreferenced types change nothing
 	if c.Extras > 0 {
 		q := p.Clone()
